@@ -93,7 +93,7 @@ def parse_template(text: str) -> List[Token]:
 
             resolved_tokens.append(fixed_token)
             index_start = fixed_token.position[1]
-            lineno_offset += (
+            lineno_offset = (  # `fixed_token.lineno` already includes the previous offset
                 fixed_token.lineno - 1  # -1 because lines are 1-indexed
                 + fixed_token.contents.count("\n")
             )  # fmt: skip
